@@ -79,14 +79,26 @@ Definition file_lines (pkg : bytes) (file : N) (cs : list component) : list line
 Definition flatten (pkg : bytes) (cs : list component) : list line :=
   file_lines pkg 0 cs ++ file_lines pkg 1 cs ++ file_lines pkg 2 cs.
 
+(* the client API's StateEntity:
+   8: [name; full name; schema name; query service] ; 9: primary keys ; 10: command services ;
+   11: events ; 12: query method [name; path] [verb] ; 13: command method [service; name; path] [verb] *)
+Definition client_lines (c : client_entity) : list line :=
+  [ (8, [ce_name c; ce_full_name c; ce_schema c; ce_query c], []);
+    (9, ce_primary_key c, []);
+    (10, map fst (ce_commands c), []);
+    (11, ce_events c, []) ]
+  ++ map (fun m => (12, [fst m; snd m], [1])) (ce_query_methods c)
+  ++ flat_map (fun s => map (fun m => (13, [fst s; fst (fst m); snd m], [snd (fst m)])) (snd s)) (ce_commands c).
+
 Inductive c17case :=
-| EC (e : entity) (ok : bool) (lines : list line).
+| EC (e : entity) (ok : bool) (lines : list line) (client_ok : bool) (clines : list line).
 
 Definition c17_check (c : c17case) : bool :=
   match c with
-  | EC e ok lines =>
+  | EC e ok lines cok clines =>
       match compile e with
       | Ok cs => ok && list_eqb line_eqb (flatten (e_pkg e) cs) lines
+                 && cok && list_eqb line_eqb (client_lines (client_view e)) clines
       | Err _ => negb ok
       | _ => false
       end
@@ -102,9 +114,12 @@ Fixpoint first_diff (i : N) (a b : list line) : option (N * option line * option
   end.
 Definition c17_diff (c : c17case) :=
   match c with
-  | EC e ok lines =>
+  | EC e ok lines cok clines =>
       match compile e with
-      | Ok cs => first_diff 0 (flatten (e_pkg e) cs) lines
+      | Ok cs => match first_diff 0 (flatten (e_pkg e) cs) lines with
+                 | Some d => Some d
+                 | None => first_diff 1000 (client_lines (client_view e)) clines
+                 end
       | _ => None
       end
   end.
